@@ -288,6 +288,23 @@ func debMachine(p *Prog, sc debScenario) *Machine {
 	m.Hooks["(*github.com/klauspost/compress/zstd.Decoder).IOReadCloser"] = func(m *Machine, st *State, call *ssa.CallCommon, args []Val) ([]Val, bool) {
 		return []Val{IfaceV{T: ifT, V: opaque(st, debProv(st, args[0]))}}, true
 	}
+	// a recycled buffered reader pointed at another source is a new buffered reader over it
+	m.Hooks["(*bufio.Reader).Reset"] = func(m *Machine, st *State, call *ssa.CallCommon, args []Val) ([]Val, bool) {
+		pp, ok := args[0].(Ptr)
+		if !ok {
+			return nil, false
+		}
+		o, has := st.Heap[pp.Obj]
+		if !has {
+			return nil, false
+		}
+		if _, isOpaque := o.V.(OpaqueV); !isOpaque {
+			return nil, false
+		}
+		note(st, "bufionew:"+debProv(st, args[1]))
+		o.V = OpaqueV{"bufio(" + debProv(st, args[1]) + ")"}
+		return []Val{nil}, true
+	}
 	m.Hooks["bufio.NewReader"] = func(m *Machine, st *State, call *ssa.CallCommon, args []Val) ([]Val, bool) {
 		note(st, "bufionew:"+debProv(st, args[0])) // a new buffered reader starts at the member's beginning
 		return []Val{opaque(st, "bufio("+debProv(st, args[0])+")")}, true
